@@ -226,47 +226,55 @@ def check_acc(run, m, only_count=False):
 
 # ------------------------------------------------------------------ GATE
 
+_W = r'(window|max\(1, min\(self\.len\(\), window\)\)|min\(self\.len\(\), window\))'
+
+
 def gate_form(m):
-    """Parse `let min_periods = ...` before the driver call.
-    Returns dict(form=..., K=int, local=id) or None."""
+    """The effective min_periods the closure compares the count with, as a canonical
+    expression of the parameters (helper lets inlined, min/max spelled one way).
+    Returns dict(ok, clamp, K, local, win_clamped, node, src) or None."""
+    import dtree
+    import re
     fn = m.k.fn
-    body = fn.hir
-    res = None
-    win_clamped = False
-    for s in body.get('stmts', []):
-        if s['k'] != 'Let' or 'init' not in s or s['pat'].get('k') != 'Binding':
-            continue
-        nm = s['pat']['name']
-        init = peel(s['init'])
-        if nm == 'window':
-            # let window = min(self.len(), window)[.max(1)]
-            if init.get('k') == 'MethodCall' and callee_is(init, 'Ord::max') and \
-                    src(peel(init['ch'][1])) == '1':
-                init = peel(init['ch'][0])
-            if init.get('k') == 'Call' and callee_is(init, 'cmp::min') or \
-                    (init.get('k') == 'MethodCall' and callee_is(init, 'Ord::min')):
-                srcs = sorted(src(x) for x in (init['ch'][1:] if init['k'] == 'Call' else init['ch']))
-                if srcs == ['self.len()', 'window']:
-                    win_clamped = True
-        if nm == 'min_periods':
-            K = 0
-            clamp = False
-            e = init
-            # peel .max(K)
-            if e.get('k') == 'MethodCall' and callee_is(e, 'Ord::max') and \
-                    peel(e['ch'][1]).get('k') == 'Lit':
-                K = int(peel(e['ch'][1])['v'])
-                e = peel(e['ch'][0])
-            if e.get('k') == 'MethodCall' and callee_is(e, 'Ord::min') and \
-                    is_local(peel(e['ch'][1]), 'window'):
-                clamp = True
-                e = peel(e['ch'][0])
-            ok = (e.get('k') == 'MethodCall' and callee_is(e, 'Option::unwrap_or') and
-                  is_local(peel(e['ch'][0]), 'min_periods') and
-                  src(peel(e['ch'][1])) == '(window / 2)')
-            res = {'ok': ok, 'clamp': clamp, 'K': K, 'local': s['pat']['local'],
-                   'win_clamped': win_clamped, 'node': s['init'], 'src': src(s['init'])}
-    return res
+    m.classify()
+    n_id = count_acc(m)
+    # the gate variable: the captured local the count is compared with
+    mp_local = None
+    for x in walk(m.body):
+        if x.get('k') == 'Binary' and x['op'] in ('Ge', 'Le', 'Lt', 'Gt'):
+            a, b = peel(x['ch'][0]), peel(x['ch'][1])
+            for p_, q_ in ((a, b), (b, a)):
+                if p_.get('res') == 'local' and p_.get('local') == n_id and q_.get('res') == 'local' \
+                        and q_.get('local') in m.captured and q_.get('ty') == 'usize':
+                    mp_local = q_['local']
+    node = None
+    for s_ in fn.hir.get('stmts', []):
+        if s_['k'] == 'Let' and s_['pat'].get('k') == 'Binding' and 'init' in s_ and \
+                (s_['pat']['local'] == mp_local or (mp_local is None and s_['pat']['name'] == 'min_periods')):
+            node = s_['init']
+            if mp_local is None:
+                mp_local = s_['pat']['local']
+    if mp_local is None or node is None:
+        return None
+    env0 = {b['local']: b['name'] for p in fn.params for b in _pat_binds(p)}
+    en = dtree.env_at(fn.hir, m.k.call, env0)
+    c = en.get(mp_local, '?')
+    K = 0
+    mk = re.fullmatch(r'max\((\d+), (.+)\)', c)
+    body = c
+    if mk:
+        K = int(mk.group(1))
+        body = mk.group(2)
+    base = r'min_periods\.unwrap_or\(\(%s / 2\)\)' % _W
+    m1 = re.fullmatch(base, body)
+    m2 = re.fullmatch(r'min\(%s, %s\)' % (base, _W), body)
+    ok = bool(m1 or m2)
+    ws = set((m1 or m2).groups()) if ok else set()
+    # one window expression throughout; the clamped spelling is the cmp.rs family's
+    ok = ok and len(ws) == 1
+    win_clamped = ok and list(ws)[0] != 'window'
+    return {'ok': ok, 'clamp': bool(m2), 'K': K, 'local': mp_local, 'win_clamped': win_clamped,
+            'node': node, 'src': c}
 
 
 def gate_polarity(m, cond, n_id, mp_local):
@@ -382,6 +390,14 @@ def result_leaves(m, n_id, mp_local):
         if k == 'MethodCall' and callee_is(e, 'Cast::cast', 'Number::f64') and len(e['ch']) == 1:
             leaves(e['ch'][0], gated, depth + 1)
             return
+        if k == 'Path' and e.get('res') == 'local' and e['local'] in m.captured:
+            # a captured immutable constant of the enclosing function (`let nan = f64::NAN;`)
+            for s_ in m.k.pre:
+                if s_.get('k') == 'Let' and s_['pat'].get('k') == 'Binding' and \
+                        s_['pat']['local'] == e['local'] and not s_['pat'].get('mut') and 'init' in s_ \
+                        and is_null_literal(s_['init']):
+                    out.append((s_['init'], gated))
+                    return
         if k == 'Path' and e.get('res') == 'local' and e['local'] not in m.captured:
             lid = e['local']
             if lid in seen:
